@@ -228,18 +228,21 @@ def run(chk):
         if set(ins) & set(outs):
             continue  # a pin cannot be both an input and an output of a blackbox
         bb = RefBlackBox("blk", ins, outs)
-        for variant in ("all-connected", "some-unconnected"):
+        for variant in ("all-connected", "some-unconnected", "pins-the-parent-observes"):
             p0 = parent()
             conns = {}
             nets = ["A", "G", "B"]
             for i, pin in enumerate(ins):
-                if variant == "all-connected" or i == 0:
+                if variant != "some-unconnected" or i == 0:
                     conns[pin] = nets[i % 3]
             for i, pin in enumerate(outs):
-                if variant == "all-connected" or i == 0:
+                if variant != "some-unconnected" or i == 0:
                     if i < 2:
                         conns[pin] = ["T1", "T2"][i]
             p0.add_blackbox(bb, "inst", conns)
+            if variant == "pins-the-parent-observes":
+                # the parent's own output list holds pins of the instance: it is unchanged by the fill (under the pins' new names)
+                p0.set_output([f"inst.{outs[0]}", f"inst.{ins[0]}"] if ins else [f"inst.{outs[0]}"])
             p1 = p0.copy()
             snap = sc._snapshot()
             bb_before = (set(bb.input_set), set(bb.output_set))
